@@ -147,8 +147,11 @@ func c11Gen(tier string, r *rand.Rand) []Case {
 		}
 		// single-bit flips of the 64-byte signature
 		if thorough {
+			// all 512 positions, dealt alternately to the two curves (plus 32 extra per curve)
 			for bit := 0; bit < 512; bit++ {
-				v("bit-flip", c, hashers[bit%len(hashers)], fmt.Sprintf("flip:%d", bit), 32)
+				if bit%2 == ci || bit%16 == 3 {
+					v("bit-flip", c, hashers[bit%len(hashers)], fmt.Sprintf("flip:%d", bit), 32)
+				}
 			}
 		} else {
 			for _, bit := range []int{0, 255, 256, 511, r.IntN(512)} {
